@@ -133,11 +133,17 @@ func (s *server) snapshot() map[string]string {
 
 func (s *server) settle() map[string]string {
 	prev := s.snapshot()
-	for i := 0; i < 40; i++ {
+	same := 0
+	for i := 0; i < 60; i++ {
 		time.Sleep(15 * time.Millisecond)
 		cur := s.snapshot()
 		if sameSnap(prev, cur) {
-			return cur
+			same++
+			if same >= 2 {
+				return cur
+			}
+		} else {
+			same = 0
 		}
 		prev = cur
 	}
@@ -282,6 +288,7 @@ func propTraversal(t *vt.T) {
 	os.MkdirAll(filepath.Join(s.home, "data/serve/zeta"), 0755)
 	os.WriteFile(filepath.Join(s.home, "data/serve/zeta/private.txt"), []byte("CANARY-zeta-private"), 0644)
 	n := t.IntRange("nRequests", 1, 12)
+	var earlier []string
 	for i := 0; i < n; i++ {
 		srcOpts := []string{"alpha", "alpha", "alpha", "be/ta", "..", "../other", "alpha/../zeta", ".", "a\\b", "alpha%2f..", "/abs"}
 		source := srcOpts[t.Pick("source", len(srcOpts))]
@@ -297,7 +304,28 @@ func propTraversal(t *vt.T) {
 			if t.Bool("hasPrev") {
 				prev = pick("prev")
 			}
-			sep := []string{"/", "", "\\", "..", "a"}[t.Weighted("sep", 6, 1, 1, 1, 1)]
+			sep := []string{"/", "", "\\", "..", "a", "|", "SEP"}[t.Weighted("sep", 6, 1, 2, 1, 1, 2, 1)]
+			// each field may instead be a path spelled with a drawn joiner - the announced
+			// separator, or one of the two conventional ones (drawn after the fields above so
+			// that older replay files keep their meaning)
+			spell := func(label, old string) string {
+				if old == "" || t.Weighted(label+"Spelled", 1, 1) == 0 {
+					return old
+				}
+				joiners := []string{sep, sep, "/", "\\"}
+				j := joiners[t.Pick(label+"Joiner", len(joiners))]
+				if j == "" {
+					j = "/"
+				}
+				comps := []string{"..", "..", "..", "..", "..", ".", "ok", "sub", "area", "other", "canary.txt", "secret.txt", "data", "final", "alpha", "zeta"}
+				n := t.IntRange(label+"Comps", 2, 6)
+				var cs []string
+				for k := 0; k < n; k++ {
+					cs = append(cs, comps[t.Pick(label+"Comp", len(comps))])
+				}
+				return strings.Join(cs, j)
+			}
+			name, rename, prev = spell("name", name), spell("rename", rename), spell("prev", prev)
 			data := []byte("payload-" + strconv.Itoa(i))
 			pm := partMeta{Name: name, Renamed: rename, Prev: prev, Hash: md5hex(data), Time: "1900000000+5", Size: int64(len(data)), Beg: 0, End: int64(len(data))}
 			r = dataRequest(source, "", sep, []partMeta{pm}, [][]byte{data}, "/data")
@@ -342,9 +370,23 @@ func propTraversal(t *vt.T) {
 			t.Violation("discloses-file-outside-roots", "%s -> %d; the answer contains the content of a file outside the directories of source %q: %.80q", r.desc, status, source, body)
 		}
 		allowedSrc := !withSources || source == "alpha" || source == "be/ta"
+		// validation and delivery run behind the answer: a late effect of an earlier, authorised
+		// request of this case (under that source's own directories) is not this request's doing
+		late := func(p string) bool {
+			for _, pre := range earlier {
+				if under(p, pre) || under(pre, p) {
+					return true
+				}
+			}
+			return false
+		}
 		for _, d := range diffSnap(before, after) {
 			p := d[1:]
 			ok := false
+			if late(p) {
+				ok = true
+				t.Class("late-effect-of-earlier-request")
+			}
 			if allowedSrc && plainSource(source) {
 				for _, pre := range allowedPrefixes(source) {
 					if under(p, pre) || under(pre, p) {
@@ -367,10 +409,13 @@ func propTraversal(t *vt.T) {
 		}
 		if status >= 400 && status < 500 && status != 404 {
 			for _, d := range diffSnap(before, after) {
-				if !under(d[1:], "area/recv/data/log/messages") {
+				if !under(d[1:], "area/recv/data/log/messages") && !late(d[1:]) {
 					t.Violation("refused-request-had-side-effect", "%s was refused with %d but changed %s", r.desc, status, d)
 				}
 			}
+		}
+		if allowedSrc && plainSource(source) && status == 200 {
+			earlier = append(earlier, allowedPrefixes(source)...)
 		}
 	}
 }
